@@ -4,8 +4,10 @@ set -e
 cd "$(dirname "$0")"
 export CARGO_NET_OFFLINE=true
 mkdir -p .work evidence replays
-(cd lean && lake build)
 cp -f /repo/Cargo.lock harness/Cargo.lock 2>/dev/null || true
 (cd harness && cargo build --offline)
+# generated Lean instance for C15 (lock traces of the current source), then everything in Lean
+python3 gen/C15_pre_lean.py
+(cd lean && (lake build || lake build sentinel-model))
 (cd harness-tower && cargo build --offline)
 echo setup-ok
